@@ -243,6 +243,35 @@ pub fn run(rep: &'static Report) {
         });
         rep.extra("cli_blob_bit_flips", json!(672));
     }
+    // CLI level, through a keyring FILE: a PrivateKey line whose value is a genuine locked key followed by extra
+    // characters is a string of another length/alphabet and must not unlock (`encrypt -f` with the right password fails)
+    {
+        use crate::proc::{self, Cmd, Scratch};
+        let pw = "ring pw";
+        let locked = r::b64(&r::lock_key(&keys[0], pw.as_bytes(), &salts[0]));
+        let pk = r::encode_pk(&r::x25519_base(&keys[0]));
+        let suffixes = ["", "=", "==", "=AAAA", "A", "AAAA", "=x=y", "%"];
+        suffixes.par_iter().for_each(|suf| {
+            rep.eval(1);
+            rep.nontrivial(format!("cli-ring-suffix-{}", suf).as_bytes());
+            let attempt = || -> Result<(), String> {
+                let sc = Scratch::new();
+                sc.write("kr.txt", format!("[Key]\nName = me\nPublicKey = {}\nPrivateKey = {}{}\n", pk, locked, suf).as_bytes());
+                sc.write("plain.bin", b"x");
+                let out = proc::run(&Cmd::new(&["encrypt", "plain.bin", "-t", "me", "-f", "me", "-k", "kr.txt", "-o", "out.ktl", "--env-pass"]).env("KESTREL_PASSWORD", pw), &sc.0);
+                out.well_behaved()?;
+                if out.ok() != suf.is_empty() {
+                    return Err(format!("keyring PrivateKey value = a genuine locked key + {:?}: `kestrel encrypt -f` exit {:?} ({})", suf, out.code, if suf.is_empty() { "the pristine string must unlock" } else { "a string of another length/alphabet must not unlock" }));
+                }
+                Ok(())
+            };
+            if attempt().is_err() {
+                if let Err(e) = attempt() {
+                    rep.violation("cli/keyring-private-key-with-extra-characters", json!({"kind":"cli-bytes","suffix":suf}), e);
+                }
+            }
+        });
+    }
     // CLI level, passwords that are not valid UTF-8 (the environment can carry any bytes): the tool may refuse them, but a
     // key locked under one byte string must never be opened under a different one
     {
